@@ -77,7 +77,8 @@ def install(engine):
     def x_json_loads(engine, st, args, kwargs, node):
         a = args[0]
         s = engine.as_str(a) if a.kind in ("str",) else z3.Function("bytes_text", V, S.Str)(a.t)
-        yield st, Raised("ValueError", where="json.loads")
+        if not (engine.spec_ctx or engine.spec_depth):
+            yield st, Raised("ValueError", where="json.loads")
         yield st, sv_dict(json_loads_dom(s), json_loads_map(s), TStr, TAny)
 
     def x_json_dumps(engine, st, args, kwargs, node):
